@@ -43,12 +43,12 @@ type uSubRes struct {
 }
 
 type c18Msg struct {
-	ReuseBuilder bool   `json:"reuse_builder_values,omitempty"` // one UEPolicyPart / Instruction / Result value reused for all parts (a builder variable)
-	Kind      string    `json:"kind"` // command | complete | reject | list | result-list
-	PTI       uint8     `json:"pti"`
-	Subs      []uSub    `json:"sublists,omitempty"`
-	Classmark int       `json:"classmark_nssui"` // -1 none
-	SubRes    []uSubRes `json:"sub_results,omitempty"`
+	ReuseBuilder bool      `json:"reuse_builder_values,omitempty"` // one UEPolicyPart / Instruction / Result value reused for all parts (a builder variable)
+	Kind         string    `json:"kind"`                           // command | complete | reject | list | result-list
+	PTI          uint8     `json:"pti"`
+	Subs         []uSub    `json:"sublists,omitempty"`
+	Classmark    int       `json:"classmark_nssui"` // -1 none
+	SubRes       []uSubRes `json:"sub_results,omitempty"`
 }
 
 type c18Raw struct {
@@ -325,6 +325,16 @@ func c18MsgExec(c *core.Ctx, in c18Msg) {
 		fail("rejects-own-output", fmt.Sprintf("decoding %x fails: %v %v", clip(enc), derr, lerr))
 		return
 	}
+	if in.Kind == "list" || in.Kind == "result-list" {
+		var hk, hw string
+		if pi := core.Try(func() { hk, hw = c18Hygiene(in) }); pi != nil {
+			fail(pi.Key(), "panics on a repeated serialisation: "+pi.Msg)
+			return
+		} else if hk != "" {
+			fail(hk, hw)
+			return
+		}
+	}
 	switch in.Kind {
 	case "command", "list":
 		got := absSubLists(backList)
@@ -377,6 +387,46 @@ func c18MsgExec(c *core.Ctx, in c18Msg) {
 			}
 		}
 	}
+}
+
+var c18OtherList, _ = libSubLists([]uSub{{Mcc: 466, Mnc: 92, Ins: []uIns{{Upsc: 7, Parts: []uPart{{Type: 1, Len: 3}}}}}})
+var c18OtherRes, _ = libSubResults([]uSubRes{{Mcc: 466, Mnc: 92, Results: []uRes{{Upsc: 7, Order: 1}}}})
+
+// c18Hygiene: serialising leaves the structure (everything but the derived length fields) unchanged, returns an
+// independent slice, and the slice survives a later serialisation of another list.
+func c18Hygiene(in c18Msg) (string, string) {
+	if in.Kind == "list" {
+		return marshalHygiene(func() binMarshaler {
+			l, _ := libSubLists(in.Subs, in.ReuseBuilder)
+			return &l
+		}, &c18OtherList, func(a, b any) bool {
+			x := a.(*uePolicyContainer.UEPolicySectionManagementListContent)
+			y := b.(*uePolicyContainer.UEPolicySectionManagementListContent)
+			return reflect.DeepEqual(absSubLists(*x), absSubLists(*y))
+		})
+	}
+	abs := func(l uePolicyContainer.UEPolicySectionManagementResultContent) []uSubRes {
+		var out []uSubRes
+		for _, s := range l {
+			a := uSubRes{}
+			if s.Mcc != nil && s.Mnc != nil {
+				a.Mcc, a.Mnc = s.GetPlmnDigit()
+			}
+			for _, r := range s.UEPolicySectionManagementSubResultContents {
+				a.Results = append(a.Results, uRes{Upsc: r.GetUpsc(), Order: r.FailInstructionOrder})
+			}
+			out = append(out, a)
+		}
+		return out
+	}
+	return marshalHygiene(func() binMarshaler {
+		l, _ := libSubResults(in.SubRes)
+		return &l
+	}, &c18OtherRes, func(a, b any) bool {
+		x := a.(*uePolicyContainer.UEPolicySectionManagementResultContent)
+		y := b.(*uePolicyContainer.UEPolicySectionManagementResultContent)
+		return reflect.DeepEqual(abs(*x), abs(*y))
+	})
 }
 
 // plmnPos says whether byte offset i of the encoding of in is one of the PLMN octets of a sublist / sub-result.
